@@ -615,6 +615,10 @@ func (m *Machine) runVcmd(dir, text string, args []string) Value {
 	}
 	w.Invs = append(w.Invs, inv)
 	w.event(m, "cmd-start", int64(inv.N), inv.Cmd)
+	if len(m.traceChans) > 0 {
+		m.SyncTrace = append(m.SyncTrace, "B")
+		defer func() { m.SyncTrace = append(m.SyncTrace, "E") }()
+	}
 	c := m.C
 	fail := func(why string) Value {
 		inv.Ended = true
